@@ -73,6 +73,14 @@ def gen_unit(rnd, uid, uniq, exported_here, foreign_exports, depth, aux, opts):
     for n, kind, how in defs:
         if how == "extern-before":
             stmts.append(apm.extern(n))
+    if rnd.random() < 0.5:
+        # local labels in the scope that is open at the head of the unit, before its first ordinary label: the same local names are
+        # used at the tail of other units and in the includer's open scope, which must stay separate scopes
+        loc = rnd.choice(LOCALS)
+        if rnd.random() < 0.5:
+            stmts += [apm.label(loc), apm.data(".word", ("loc", loc), apm.num(uniq.next() & 0o177777))]
+        else:
+            stmts += [apm.data(".word", ("loc", loc), apm.num(uniq.next() & 0o177777)), apm.label(loc), apm.data(".byte", apm.num(3), apm.num(4))]
     stmts += probes(rnd.randrange(1, 4))           # uses before any definition
     nscopes = 0
     for n, kind, how in defs:
@@ -106,6 +114,12 @@ def gen_unit(rnd, uid, uniq, exported_here, foreign_exports, depth, aux, opts):
     if use_extern_all and extern_all_at is None:
         stmts.append(apm.extern("all"))
     stmts += probes(rnd.randrange(1, 4))
+    if rnd.random() < 0.4:
+        # ... and in the scope that is still open at the tail of the unit
+        loc = rnd.choice(LOCALS)
+        already = any(l[0] == loc for s2 in stmts[-12:] for l in s2.labels)
+        if not already and not any(s2.labels and s2.labels[0][1] == "local" for s2 in stmts[-8:]):
+            stmts += [apm.label("tail" + uid.replace("i", "n")), apm.data(".word", apm.num(uniq.next() & 0o177777)), apm.label(loc), apm.data(".word", ("loc", loc))]
     return stmts
 
 
@@ -129,7 +143,7 @@ def gen_program(rnd):
         files.append(apm.SrcFile(f"f{i}.mac", stmts))
     plant = None
     if rnd.random() < 0.3:
-        plant = rnd.choice(["invisible", "dup", "dup-export", "local-out-of-scope", "own-shadows-export"])
+        plant = rnd.choice(["invisible", "dup", "dup-export", "local-out-of-scope", "own-shadows-export", "dup-export-include", "local-across-units"])
         f = rnd.choice(files)
         if plant == "invisible":
             others = [n for n in PRIVATE_POOL if not any(n in [l[0] for l in s.labels] or getattr(s, "name", None) == n for s in f.stmts)]
@@ -152,6 +166,23 @@ def gen_program(rnd):
                 owner = next(i for i, lst in enumerate(per_file) if name in lst)
                 other = rnd.choice([x for x in range(len(files)) if x != owner])
                 files[other].stmts.append(apm.assign(name, apm.num(uniq.next()), extern=True))
+            else:
+                plant = None
+        elif plant == "dup-export-include":
+            # '.extern NAME' first, then an include that exports NAME itself, then NAME's own definition: two exports of one name
+            inc = f"incdup{len(aux)}.mac"
+            how = rnd.choice(["label", "const", "all"])
+            body = [apm.label("dupexp", extern=True), apm.data(".word", apm.num(1))] if how == "label" else \
+                ([apm.assign("dupexp", apm.num(uniq.next()), extern=True)] if how == "const" else [apm.extern("all"), apm.label("dupexp"), apm.data(".word", apm.num(2))])
+            aux[inc] = apm.SrcFile(inc, body)
+            f.stmts[0:0] = [apm.extern("dupexp"), apm.include(inc)]
+            f.stmts.append(apm.label("dupexp"))
+            f.stmts.append(apm.data(".word", apm.num(3)))
+        elif plant == "local-across-units":
+            # a reference at the head of a later unit to a local label that only the previous unit's tail scope defines
+            if len(files) >= 2:
+                files[0].stmts += [apm.label("lastlab"), apm.data(".word", apm.num(uniq.next() & 0o177777)), apm.label("88$"), apm.data(".word", apm.num(5))]
+                files[1].stmts.insert(0, apm.data(".word", ("loc", "88$")))
             else:
                 plant = None
         elif plant == "local-out-of-scope":
